@@ -55,26 +55,25 @@ func (sk *storeKey) clone(newId uint64) *storeKey {
 					prev:    newSl.tail,
 					element: element,
 				}
+				if newSl.tail != nil {
+					newSl.tail.next = item
+				}
 				newSl.tail = item
 				if newSl.head == nil {
 					newSl.head = item
 				}
+				newSl.count++
 			}
 			payload = &newSl
-		} else if flagHasOne(sk.flags, FLAG_KEY_TYPE_HASH_TABLE) {
-			m := sk.payload.(map[string]string)
-			newMap := make(map[string]string, len(m))
-			for k, v := range m {
-				newMap[k] = v
+		} else if flagHasOne(sk.flags, FLAG_KEY_TYPE_HASH_TABLE) || flagHasOne(sk.flags, FLAG_KEY_TYPE_SET) {
+			// hashes and sets are both kept in a redisDict; copy every item so
+			// the two keys share nothing
+			m := sk.payload.(*redisDict)
+			newDict := newRedisDict()
+			for i := m.createIterator(); i.next(); {
+				newDict.store(i.key, i.value)
 			}
-			payload = newMap
-		} else if flagHasOne(sk.flags, FLAG_KEY_TYPE_SET) {
-			m := sk.payload.(map[string]struct{})
-			newMap := make(map[string]struct{}, len(m))
-			for k := range m {
-				newMap[k] = struct{}{}
-			}
-			payload = newMap
+			payload = newDict
 		} else {
 			panic("unexpected payload type")
 		}
